@@ -17,8 +17,9 @@ import ctypes, math, sys
 from fractions import Fraction
 import vlib
 import c13_lib as L
+import c15_lib
 
-HDR = ("From Coq Require Import List ZArith Bool PrimFloat.\nFrom RV Require Import Common.FloatNum C13.Model C13.Run.\n"
+HDR = ("From Coq Require Import List ZArith Bool PrimFloat.\nFrom RV Require Import Common.FloatNum C13.Model C13.TreeModel C13.Run.\n"
        "Import ListNotations.\nOpen Scope Z_scope.\nOpen Scope float_scope.\n")
 
 
@@ -58,6 +59,35 @@ def fl(xs):
     return vlib.flist(xs)
 
 
+def zlit(v):
+    return "(%d)%%Z" % v
+
+
+def wf_term(sim, forest):
+    """Coq term `wf_forest_case u pos L N roots` for a dumped forest, in the exact integer units of C15 (None if there is none)"""
+    box = c15_lib.Box(sim.root_size, sim.N_root_x, sim.N_root_y, sim.N_root_z)
+    part = [(sim.particles[i].x, sim.particles[i].y, sim.particles[i].z) for i in range(sim.N)]
+    sc = c15_lib.scale_for(box, part)
+    if sc is None:
+        return None
+    ue, u, Lv = sc
+    def draw(c):
+        return "(C15.Tree.D %s %s %s %s %s [%s])" % (
+            zlit(c15_lib.to_units(c["x"], ue)), zlit(c15_lib.to_units(c["y"], ue)), zlit(c15_lib.to_units(c["z"], ue)),
+            zlit(c15_lib.to_units(c["w"], ue)), zlit(c["pt"]), "; ".join("None" if d is None else "(Some %s)" % draw(d) for d in c["oct"]))
+    try:
+        pos = "; ".join("(%s, %s, %s)" % tuple(zlit(c15_lib.to_units(p[a], ue)) for a in range(3)) for p in part)
+        roots = []
+        for ri, c in enumerate(forest):
+            if c is not None:
+                fc = box.root_centre_of_index(ri)
+                roots.append("((%s, %s, %s), %s)" % (zlit(c15_lib.to_units(fc[0], ue)), zlit(c15_lib.to_units(fc[1], ue)),
+                                                    zlit(c15_lib.to_units(fc[2], ue)), draw(c)))
+    except (AssertionError, OverflowError, ValueError):
+        return None
+    return "wf_forest_case %s [%s] %d%%nat %d%%nat [%s]" % (zlit(u), pos, Lv, sim.N, "; ".join(roots))
+
+
 def box_args(cfg, sim):
     ng = (sim.N_ghost_x, sim.N_ghost_y, sim.N_ghost_z)
     return "%s %s %s (%d)%%Z (%d)%%Z (%d)%%Z" % (vlib.fhex(sim.boxsize.x), vlib.fhex(sim.boxsize.y), vlib.fhex(sim.boxsize.z),
@@ -90,11 +120,14 @@ def correspondence(ctx, rebound):
     # ---------- (a) resolve loop with arbitrary outcomes, (b) search + shuffle
     nloop = ctx.scale(400, 4000)
     loop_terms, loop_info, search_terms, search_info = [], [], [], []
+    wf_terms, wf_skipped = [], [0]
     wrong_pairs = WRONG_PAIRS
     for k in range(nloop):
         tree = rng.random() < 0.4
-        line = (not tree) and rng.random() < 0.2
-        cfg = L.gen_cluster(rng, tree=tree, line=line)
+        line = rng.random() < (0.3 if tree else 0.2)
+        fast = line and rng.random() < 0.5
+        cfg = L.gen_cluster(rng, n=rng.choice([8, 12]) if fast else None, tree=tree, line=line,
+                            big=tree and not fast and rng.random() < 0.3, fast=fast)
         cfg["keep"] = 1 if rng.random() < (0.2 if tree else 0.5) else 0
         cfg["nact"] = -1 if rng.random() < 0.6 else rng.randint(0, cfg["N"])
         full, simA = L.record_all(rebound, cfg)
@@ -125,15 +158,39 @@ def correspondence(ctx, rebound):
                 term = "pending_direct %s (%d)%%Z %s" % (ba, cfg["seed"], L.particles(cfg))
             search_terms.append("(%s, %s)" % (term, L.entries(full)))
             search_info.append(cfg)
+        else:
+            # the walk of the model on the library's own tree (dumped through ctypes after the search)
+            forest = c15_lib.dump_tree(simA)
+            ba = box_args(cfg, simA)
+            tail = "(%d)%%Z %s %s %s" % (cfg["seed"], vlib.fhex(simA.max_radius[1]), L.particles_from_sim(simA, 0.0), L.roots_term(forest))
+            if line:
+                term = "pending_linetree %s %s %s" % (ba, vlib.fhex(simA.dt_last_done), tail)
+            else:
+                term = "pending_tree %s %s" % (ba, tail)
+            search_terms.append("(%s, %s)" % (term, L.entries(full)))
+            search_info.append(cfg)
+            # the same dump in exact integer units through C15's checker (hypothesis of the walk theorems)
+            if len(wf_terms) < ctx.scale(60, 600):
+                wt = wf_term(simA, forest)
+                if wt is None:
+                    wf_skipped[0] += 1
+                else:
+                    wf_terms.append(wt)
     bad_loop = run_jobs(ctx, "loop", "bad_loop_cases", loop_terms, 40)
     ctx.obligation("correspondence:C13 resolve_loop (fix-up/remap/tombstones) == library log + final particle order on %d runs"
                    % len(loop_terms), bad_loop == [],
                    "mismatching cases: %s" % [loop_info[b] for b in (bad_loop or [])[:2]])
     bad_search = run_jobs(ctx, "search", "bad_search_cases", search_terms, 25)
-    ctx.obligation("correspondence:C13 search_direct/search_line(binary64)+rand_r shuffle == array handed to resolve on %d runs"
+    ctx.obligation("correspondence:C13 search_direct/line and tree/linetree walks on the dumped tree (binary64)+rand_r shuffle == array handed to resolve on %d runs"
                    % len(search_terms), bad_search == [],
                    "mismatching cases: %s" % [search_info[b] for b in (bad_search or [])[:2]])
 
+    bad_wf = run_jobs(ctx, "wf", "bad_bool_cases", wf_terms, 20)
+    ctx.log("tree walks compared: %d, forests through C15.forest_b: %d (skipped %d), rejected: %s"
+            % (sum(1 for c in search_info if c["tree"]), len(wf_terms), wf_skipped[0], bad_wf))
+    ctx.obligation("correspondence:C13 C15.forest_b (proved-sound wf checker, exact integer units) accepts the %d dumped forests the walks "
+                   "were run on (%d skipped: no exact unit)" % (len(wf_terms), wf_skipped[0]), bad_wf == [] and len(wf_terms) > 0,
+                   "rejected dumps: %s" % (bad_wf or [])[:5])
     # ---------- (c) full search with merge
     nm = ctx.scale(160, 2000)
     mterms, minfo = [], []
@@ -192,7 +249,7 @@ def correspondence(ctx, rebound):
     bad_r = run_jobs(ctx, "radii", "bad_cases", rterms, 100)
     ctx.obligation("correspondence:C13 add_radius_num(binary64) == max_radius0/1 after reb_simulation_add on %d sequences" % len(rterms),
                    bad_r == [], "mismatching cases: %s" % (bad_r or [])[:5])
-    allok = bad_loop == [] and bad_search == [] and bad_m == [] and bad_h == [] and bad_r == []
+    allok = bad_loop == [] and bad_search == [] and bad_m == [] and bad_h == [] and bad_r == [] and bad_wf == []
     ctx.traces = (len(loop_terms) + len(search_terms) + len(mterms) + len(hterms) + len(rterms)) if allok else 0
     ctx.extra["input_distribution"] = dict(sorted(dist.items()))
     return allok
@@ -241,7 +298,9 @@ def search_detection(ctx, rebound, fails):
         u = rng.random()
         tree = u < 0.45
         line = rng.random() < 0.3
-        cfg = L.gen_cluster(rng, tree=tree, line=line, big=tree and rng.random() < 0.5)
+        fast = line and rng.random() < 0.5
+        cfg = L.gen_cluster(rng, n=rng.choice([8, 12, 16]) if fast else None, tree=tree, line=line,
+                            big=tree and not fast and rng.random() < 0.5, fast=fast)
         sim = L.make_sim(rebound, cfg)
         seen = {}
         def cb(sp, c, sim=sim, seen=seen):
@@ -316,9 +375,24 @@ def search_merge(ctx, rebound, fails):
         cfg["keep"] = 0 if tree else rng.randrange(2)
         sim = L.make_sim(rebound, cfg)
         M0, P0, X0 = sums(sim)
-        sim.collision_resolve = "merge"
-        rebound.clibrebound.reb_collision_search(ctypes.byref(sim))
+        fm = rebound.clibrebound.reb_collision_resolve_merge
+        fm.argtypes = [ctypes.POINTER(rebound.Simulation), rebound.simulation.CollisionS]
+        fm.restype = ctypes.c_int
+        merges = []
+        def cbm(sp, c, merges=merges):
+            s_ = sp.contents
+            h = (s_.particles[c.p1].hash.value, s_.particles[c.p2].hash.value)
+            o = fm(sp, c)
+            if o:
+                merges.append(h)
+            return o
+        L.search(rebound, sim, cbm)
         ctx.evaluations += 1
+        cnt = {}
+        for h in merges:
+            for x in h:
+                cnt[x] = cnt.get(x, 0) + 1
+        twice = sorted(x for x, v in cnt.items() if v > 1)
         S1 = sums(sim)
         M1, P1, X1 = S1 if S1 is not None else (M0, P0, X0)
         live = [sim.particles[i].hash.value for i in range(sim.N) if sim.particles[i].y == sim.particles[i].y]
@@ -326,7 +400,9 @@ def search_merge(ctx, rebound, fails):
         sm, sv, sx = scale_of(cfg)
         eps = 2.3e-16 * 8 * (cfg["N"] + 2)
         bad = None
-        if S1 is None:
+        if twice:
+            bad = "particles %s took part in more than one merger in a single step: %s" % (twice, merges)
+        elif S1 is None:
             # 1/(m_i+m_j) with two massless particles is outside the theorem's hypothesis m_i+m_j != 0
             if sum(1 for m in cfg["m"] if m == 0.0) >= 2:
                 continue
@@ -358,6 +434,9 @@ def search_hardsphere(ctx, rebound, fails):
         cfg = L.gen_cluster(rng, n=2, periodic=False, tree=rng.random() < 0.3)
         cfg["m"] = [rng.uniform(0.01, 3), rng.uniform(0.01, 3)]
         sim = L.make_sim(rebound, cfg)
+        e_res = rng.choice([1.0, 1.0, 0.5, 0.0, 0.9])
+        if e_res != 1.0 or rng.random() < 0.5:
+            sim.coefficient_of_restitution = lambda sp, v, e_res=e_res: e_res
         ov, ap, A = L.overlap_margin(cfg, 0, 1, (0, 0, 0))
         calls = []
         clib = rebound.clibrebound
@@ -384,13 +463,22 @@ def search_hardsphere(ctx, rebound, fails):
                 bad = "momentum component %d changed" % a
         ke0 = sum(m[i] * L.dot(v0[i], v0[i]) for i in range(2))
         ke1 = sum(m[i] * L.dot(v1[i], v1[i]) for i in range(2))
-        if not bad and abs(ke1 - ke0) > Fraction(eps * sm * sv * sv * 8):
-            bad = "kinetic energy %r -> %r at restitution 1" % (float(ke0 / 2), float(ke1 / 2))
+        v21 = [v0[0][a] - v0[1][a] for a in range(3)]
+        vd = L.dot(v21, d)
+        mu = m[0] * m[1] / (m[0] + m[1])
+        er = Fraction(e_res)
         rv = [v1[0][a] - v1[1][a] for a in range(3)]
         sep = L.dot(rv, d)
+        if not bad and A != 0:
+            # C13_hardsphere_energy / _restitution: 2 KE changes by -mu (1-e^2) vn^2, the normal relative velocity becomes -e vn
+            if abs(ke1 - ke0 + mu * (1 - er * er) * vd * vd / A) > Fraction(eps * sm * sv * sv * 8):
+                bad = "kinetic energy %r -> %r at restitution %r, expected change %r" % (
+                    float(ke0 / 2), float(ke1 / 2), e_res, float(-mu * (1 - er * er) * vd * vd / A / 2))
+            elif abs(sep + er * vd) > Fraction(eps * sv * (float(A) ** 0.5 + 1e-300) * 8):
+                bad = "normal relative velocity (times distance) %r -> %r at restitution %r" % (float(vd), float(sep), e_res)
         if not bad and sep < -Fraction(eps * sv * (float(A) ** 0.5 + 1e-300)):
             bad = "pair still approaching after the bounce: dv.dx = %r" % float(sep)
-        ctx.nontrivial.add(("hs", cfg["tree"], len(calls)))
+        ctx.nontrivial.add(("hs", cfg["tree"], len(calls), e_res))
         if bad:
             fails.append(("hardsphere", dict(kind="hardsphere", cfg=cfg_replay(cfg), problem=bad)))
 
@@ -519,6 +607,47 @@ def search_nactive_regression(ctx, rebound, fails):
             return
 
 
+def search_restore(ctx, rebound, fails):
+    """copies and restored simulations: max_radius0/1 must still bound the largest / second largest radius (the hypothesis of
+    the tree completeness theorems) and the tree searches must hand over the same identity pairs as the fresh simulation"""
+    import tempfile, shutil
+    rng = ctx.rng
+    tmp = tempfile.mkdtemp(prefix="c13_restore_")
+    try:
+        for k in range(ctx.scale(40, 400)):
+            cfg = L.gen_cluster(rng, tree=True, line=rng.random() < 0.4, big=rng.random() < 0.6, periodic=rng.random() < 0.3)
+            fresh = L.make_sim(rebound, cfg)
+            path = "%s/s%d.bin" % (tmp, k)
+            fresh.save_to_file(path)
+            variants = {"fresh": fresh, "copy": fresh.copy(), "restored": rebound.Simulation(path)}
+            radii = sorted((fresh.particles[i].r for i in range(fresh.N)), reverse=True) + [0.0, 0.0]
+            got = {}
+            for name, sim in variants.items():
+                ctx.evaluations += 1
+                if not (sim.max_radius[0] >= radii[0] and sim.max_radius[1] >= radii[1]):
+                    fails.append(("restore:max_radius:%s" % name,
+                                  dict(kind="restore", cfg=cfg_replay(cfg),
+                                       problem="%s simulation: max_radius = (%r, %r) but the two largest radii are (%r, %r)"
+                                               % (name, sim.max_radius[0], sim.max_radius[1], radii[0], radii[1]))))
+                seen = set()
+                def cb(sp, c, seen=seen):
+                    s_ = sp.contents
+                    seen.add((s_.particles[c.p1].hash.value, s_.particles[c.p2].hash.value, L.gb_int(s_, c)))
+                    return 0
+                sim.rand_seed = cfg["seed"]
+                L.search(rebound, sim, cb)
+                got[name] = seen
+            for name in ("copy", "restored"):
+                if got[name] != got["fresh"]:
+                    miss = sorted(got["fresh"] - got[name])[:3]; extra = sorted(got[name] - got["fresh"])[:3]
+                    fails.append(("restore:detect:%s:%s" % (cfg["mode"], name),
+                                  dict(kind="restore", cfg=cfg_replay(cfg),
+                                       problem="%s simulation hands over a different pair set: missing %s extra %s" % (name, miss, extra))))
+            ctx.nontrivial.add(("restore", cfg["mode"], cfg["periodic"], cfg["N"], min(len(got["fresh"]), 30)))
+    finally:
+        shutil.rmtree(tmp, ignore_errors=True)
+
+
 # ================================================================================================ entry point
 def run(ctx):
     libdir = ctx.lib()
@@ -538,6 +667,7 @@ def run(ctx):
     ctx.log("detection searcher done")
     search_merge(ctx, rebound, fails)
     search_hardsphere(ctx, rebound, fails)
+    search_restore(ctx, rebound, fails)
     seen = set()
     for key, rep in fails:
         if key in seen:
